@@ -211,7 +211,7 @@ theorem unrefW_ghost {cfg : Cfg} (R : Repaired cfg) {gh gh' : Ghost} {st : St} (
     unfold heldW
     simp only [setX_tree, hl.1, hl.2, Bool.not_false, Bool.true_and, getX_setX_self _ hxlt]
     simp [xp]
-  obtain ⟨st', hu, inv', hsz, hfr, hle, hmono⟩ := unrefW_ok R invP hh
+  obtain ⟨st', hu, inv', hsz, hfr, hle, hmono, _⟩ := unrefW_ok R invP hh
   have hback : setX (setX st x xp) x { getX (setX st x xp) x with appRefs := (getX (setX st x xp) x).appRefs - 1 } = st := by
     rw [getX_setX_self _ hxlt]
     have : ({ xp with appRefs := xp.appRefs - 1 } : WinX) = getX st x := by
